@@ -640,8 +640,12 @@ def ensemble_sift(X, nensembles=4, ensemble_noise=.2, noise_mode='single',
 
     p = mp.Pool(processes=nprocesses)
 
-    noise = None
-    args = [(X, noise_scaling, noise, noise_mode, sift_thresh, max_imfs, ii, imf_opts, envelope_opts, extrema_opts)
+    # Each ensemble member needs its own noise realisation. Draw it here, in the
+    # parent process: forked pool workers all start from an identical copy of
+    # the global random state, so noise drawn inside the workers is duplicated
+    # across processes.
+    args = [(X, noise_scaling, np.random.randn(*X.shape), noise_mode, sift_thresh, max_imfs, ii,
+             imf_opts, envelope_opts, extrema_opts)
             for ii in range(nensembles)]
 
     res = p.starmap(_sift_with_noise, args)
